@@ -3,7 +3,7 @@
 set -e
 PROP=$1; FILE=$2; OLD=$3; NEW=$4
 M=/tmp/pyvc_mut_$$
-rm -rf $M; mkdir -p $M; cp -r /repo/src $M/src
+rm -rf $M; mkdir -p $M/tests; cp -r /repo/src $M/src; cp -r /repo/tests/grammars $M/tests/grammars; cp -r /repo/examples $M/examples
 /verif/.venv/bin/python - "$M/src/pest/$FILE" "$OLD" "$NEW" <<'PY'
 import sys
 p,old,new=sys.argv[1:4]
